@@ -45,3 +45,39 @@ package serverinterceptors
 //@   prop C02
 //@   opaque Errorf, Stack
 //@   ensures [internal] calls(status.Errorf) == 1 && arg(status.Errorf, 0) == 13 && result == ret(status.Errorf)
+//@ func StreamCrashInterceptor
+//@   prop C02
+//@   opaque toPanicError
+//@   may-panic handler
+//@   nopanic
+//@   ensures [normal] !panicked(handler) ==> err == ret(handler) && calls(toPanicError) == 0 && calls(handler, svr, stream) == 1
+//@   ensures [panic-becomes-error] panicked(handler) ==> calls(toPanicError) == 1 && err == ret(toPanicError)
+
+// ---------------- breaker interceptors (C01): per-method breaker, judged by codes.Acceptable ----------------
+//@ func UnaryBreakerInterceptor
+//@   prop C01
+//@   opaque DoWithAcceptable
+//@   requires info != nil
+//@   ensures [per-method-breaker-with-grpc-code-classifier] calls(breaker.DoWithAcceptable) == 1 && arg(breaker.DoWithAcceptable, 0) == info.FullMethod && arg(breaker.DoWithAcceptable, 2) == codes.Acceptable && err == ret(breaker.DoWithAcceptable)
+//@ func UnaryBreakerInterceptor$1
+//@   prop C01
+//@   ensures [handler-once-error-reported] calls(handler, ctx, req) == 1 && result == ret(handler, 1) && resp == ret(handler, 0)
+//@ func StreamBreakerInterceptor
+//@   prop C01
+//@   opaque DoWithAcceptable
+//@   requires info != nil
+//@   ensures [per-method-breaker-with-grpc-code-classifier] calls(breaker.DoWithAcceptable) == 1 && arg(breaker.DoWithAcceptable, 0) == info.FullMethod && arg(breaker.DoWithAcceptable, 2) == codes.Acceptable && err == ret(breaker.DoWithAcceptable)
+//@ func StreamBreakerInterceptor$1
+//@   prop C01
+//@   ensures [handler-once-error-reported] calls(handler, svr, stream) == 1 && result == ret(handler)
+
+// ---------------- shedding interceptor (C09): admission and the report back ----------------
+//@ func UnarySheddingInterceptor$1
+//@   prop C09
+//@   opaque IncrTotal, IncrDrop, IncrPass, AddDrop
+//@   may-panic handler
+//@   let rejected = ret(shedder.Allow, 1) != nil
+//@   ensures [rejected-not-handled] rejected ==> calls(handler) == 0 && err == ret(shedder.Allow, 1) && calls(Pass) == 0 && calls(Fail) == 0
+//@   ensures [admitted-reports-exactly-once] !rejected ==> calls(handler, ctx, req) == 1 && resp == ret(handler, 0) && err == ret(handler, 1) && calls(Pass) + calls(Fail) == 1 && before(handler, Pass) && before(handler, Fail)
+//@   ensures [deadline-is-fail-everything-else-pass] !rejected ==> (calls(Fail) == 1) == (ret(handler, 1) == context.DeadlineExceeded)
+//@   panic-ensures [reported-on-panic] calls(Pass) + calls(Fail) == 1
